@@ -29,6 +29,7 @@ pub fn exec_oracle(kind: &str, fields: &[&str]) -> String {
         "S_C08O" => oracle_c08o(fields),
         "S_C08D" => oracle_c08d(fields),
         "S_C09" => oracle_c09(fields),
+        "S_C13" => oracle_c13(fields),
         "S_C09E" => oracle_c09e(fields),
         "S_C09N" => oracle_c09n(fields),
         "S_C15" => oracle_c15(fields[0], &crate::exec::unhex(fields[1]), fields[2]),
@@ -2173,4 +2174,111 @@ fn oracle_c09n(fields: &[&str]) -> String {
         }
         Err(_) => "oracle pass err".to_string(),
     }
+}
+
+fn run_def(def: &str, fwd: bool, data: &[Coor4D]) -> Result<(usize, Vec<Coor4D>), String> {
+    let mut ctx = Minimal::default();
+    let op = ctx.op(def).map_err(|e| format!("{def} not instantiable ({})", err_class(&e)))?;
+    let mut d = data.to_vec();
+    let n = ctx.apply(op, if fwd { Fwd } else { Inv }, &mut d).map_err(|e| format!("{def} apply failed ({})", err_class(&e)))?;
+    Ok((n, d))
+}
+
+fn same_bits(a: &Coor4D, b: &Coor4D) -> bool {
+    (0..4).all(|i| a[i].to_bits() == b[i].to_bits() || (a[i].is_nan() && b[i].is_nan()))
+}
+
+/// two differently parameterised instances of the same projection
+fn oracle_c13(fields: &[&str]) -> String {
+    let kind = fields[0];
+    let a = unescape(fields[1]);
+    let b = unescape(fields[2]);
+    let extra: Vec<f64> = if fields[3].is_empty() { vec![] } else { fields[3].split(',').map(parse_f).collect() };
+    let pts = parse_data(fields[4]);
+    let run = |def: &str, fwd: bool, data: &[Coor4D]| run_def(def, fwd, data);
+    macro_rules! tryrun {
+        ($e:expr) => {
+            match $e {
+                Ok(v) => v,
+                Err(m) => return format!("oracle FAIL {m}"),
+            }
+        };
+    }
+    let close = |x: f64, y: f64, rel: f64, abs: f64| (x.is_nan() && y.is_nan()) || (x - y).abs() <= abs + rel * x.abs().max(y.abs());
+    if kind == "noop" {
+        for fwd in [true, false] {
+            let (n, out) = tryrun!(run(&a, fwd, &pts));
+            if n != pts.len() || out.iter().zip(pts.iter()).any(|(x, y)| !same_bits(x, y)) {
+                return format!("oracle FAIL {a}: the data came back changed or the count is {n} for {} tuples", pts.len());
+            }
+        }
+        return "oracle pass".to_string();
+    }
+    // the points handed to B, and what B's output must be turned into to equal A's
+    let mut pts_b = pts.clone();
+    if kind == "lon0" {
+        for p in pts_b.iter_mut() {
+            p[0] -= extra[0].to_radians();
+        }
+    }
+    let (na, fa) = tryrun!(run(&a, true, &pts));
+    let (nb, fb) = tryrun!(run(&b, true, &pts_b));
+    if na != nb {
+        return format!("oracle FAIL {a} counts {na}, {b} counts {nb}");
+    }
+    let k = match kind {
+        "k0" | "size" => extra[0],
+        "lat_ts" => {
+            let ellps = a.split("ellps=").nth(1).unwrap_or("GRS80").split(' ').next().unwrap_or("GRS80");
+            let es = Ellipsoid::named(ellps).map(|e| e.eccentricity_squared()).unwrap_or(0.0);
+            let (s, c) = extra[0].to_radians().sin_cos();
+            c / (1.0 - es * s * s).sqrt()
+        }
+        _ => 1.0,
+    };
+    let (ox, oy) = match kind {
+        "origin" => (extra[0], extra[1]),
+        _ => (0.0, 0.0),
+    };
+    // fixed false origin of the derived operators, for "size"
+    let (fx, fy) = if kind == "size" && extra[1] == 1.0 { (extra[2], extra[3]) } else { (0.0, 0.0) };
+    for (i, (x, y)) in fa.iter().zip(fb.iter()).enumerate() {
+        if kind == "same" {
+            if !same_bits(x, y) {
+                return format!("oracle FAIL tuple {i}: {a} gives ({}, {}), {b} gives ({}, {})", x[0], x[1], y[0], y[1]);
+            }
+            continue;
+        }
+        let want = [(y[0] - fx) * k + fx + ox, (y[1] - fy) * k + fy + oy];
+        for j in 0..2 {
+            let scale = want[j].abs().max(1.0);
+            let (rel, abs) = if kind == "close" { (1e-9, 1e-6) } else { (4e-15, 2e-9 * (scale / 1e6).max(1.0)) };
+            if !close(x[j], want[j], rel, abs) {
+                return format!("oracle FAIL [{kind}] tuple {i} element {j}: {a} gives {}, expected {} from {b}", x[j], want[j]);
+            }
+        }
+        if x[2].to_bits() != pts[i][2].to_bits() || x[3].to_bits() != pts[i][3].to_bits() {
+            return format!("oracle FAIL {a}: height or time changed by a plane projection");
+        }
+    }
+    // the inverse: A undoes its own forward result; B undoes the correspondingly changed one
+    let (nia, ia) = tryrun!(run(&a, false, &fa));
+    let back_b: Vec<Coor4D> = fa.iter().map(|x| Coor4D([(x[0] - ox - fx) / k + fx, (x[1] - oy - fy) / k + fy, x[2], x[3]])).collect();
+    let (nib, ib) = tryrun!(run(&b, false, &back_b));
+    if nia != nib {
+        return format!("oracle FAIL inverse: {a} counts {nia}, {b} counts {nib}");
+    }
+    for (i, (x, y)) in ia.iter().zip(ib.iter()).enumerate() {
+        if kind == "same" {
+            if !same_bits(x, y) {
+                return format!("oracle FAIL inverse tuple {i}: {a} gives ({}, {}), {b} gives ({}, {})", x[0], x[1], y[0], y[1]);
+            }
+            continue;
+        }
+        let shift = if kind == "lon0" { extra[0].to_radians() } else { 0.0 };
+        if !close(x[0], y[0] + shift, 0.0, 2e-11) || !close(x[1], y[1], 0.0, 2e-11) {
+            return format!("oracle FAIL [{kind}] inverse tuple {i}: {a} gives ({}, {}), {b} gives ({}, {})", x[0], x[1], y[0] + shift, y[1]);
+        }
+    }
+    "oracle pass".to_string()
 }
